@@ -141,6 +141,10 @@ func ruleEmptyListElementsIgnored(c *Ctx, rule string) {
 		switch {
 		case e == "RECV.anyHeaders":
 			return -1
+		case e == "EQ(RECV,NIL)" || e == "EQ(R,NIL)":
+			return -1 // the router hands in its own configuration and the request
+		case e == "NE(RECV,NIL)" || e == "NE(R,NIL)":
+			return 1
 		case strings.HasPrefix(e, "CALL:strings.EqualFold(") || strings.HasPrefix(e, "CONTAINS("):
 			return -1 // "" is not a configured header
 		}
@@ -798,5 +802,114 @@ func ruleRootMappedPathsAreNotPatterns(c *Ctx, rule string) {
 	}
 	if len(consts) == 0 {
 		c.R.Add(rule, c.fk(c.A.TreeHandler), "root-mapped-paths/none", c.P.Pos(c.A.TreeHandler.Pos()), true, "no request path is answered with the root node without a search")
+	}
+}
+
+// ruleSegmentsAreBuiltFromParsedPieces — C01.R18 / C05.R14: a segment object describes exactly one piece of a parsed
+// pattern: literal text, or one parameter followed by its literal suffix. Segment.Match relies on it — for a
+// parameter segment it never looks at text in front of the `{`. The segment constructor is therefore only handed
+// (a) a piece the splitter cut out of a pattern (an element of splitString's result) or (b) a part of an existing
+// segment's own text (Segment.Split). Text assembled in any other way (two nodes' texts concatenated to merge them)
+// can put literal text in front of a parameter: the merged node matches every path, whatever its head says.
+func ruleSegmentsAreBuiltFromParsedPieces(c *Ctx, rule string) {
+	c.R.Rule(c.R.Property+"."+rule, 2, "the segment constructor only receives pieces cut by the splitter or parts of an existing segment's text")
+	ctor := c.P.MustFunc("syntax.(*Interceptors).NewSegment")
+	var okArg func(v ssa.Value, depth int) bool
+	okArg = func(v ssa.Value, depth int) bool {
+		if depth > 3 {
+			return false
+		}
+		switch x := v.(type) {
+		case *ssa.Const:
+			return true // the root's empty text
+		case *ssa.Slice:
+			return strings.HasSuffix(an.AP(x.X), ".Value") // a part of a segment's own text
+		case *ssa.UnOp:
+			// an element of the splitter's result: load of IndexAddr(result-of-call, i)
+			if ia, ok := x.X.(*ssa.IndexAddr); ok && x.Op == token.MUL {
+				if call, isCall := ia.X.(*ssa.Call); isCall {
+					g := an.StaticCallee(&call.Call)
+					return g != nil && strings.HasPrefix(an.FuncKey(g), "syntax.")
+				}
+			}
+		case *ssa.Phi:
+			for _, e := range x.Edges {
+				if !okArg(e, depth+1) {
+					return false
+				}
+			}
+			return len(x.Edges) > 0
+		case *ssa.Parameter:
+			// a helper that forwards its argument: every call site hands it an acceptable text
+			args := argsOfParam(x)
+			if len(args) == 0 {
+				return false
+			}
+			for _, a := range args {
+				if !okArg(a, depth+1) {
+					return false
+				}
+			}
+			return true
+		}
+		return false
+	}
+	n := 0
+	for _, f := range c.libFuncs() {
+		an.AllInstrs(f, func(in ssa.Instruction) {
+			call, ok := calleeIs(in, ctor)
+			if !ok || len(call.Args) < 2 {
+				return
+			}
+			n++
+			good := okArg(call.Args[1], 0)
+			c.R.Add(rule, c.fk(f), "call:NewSegment/text="+c.O.Of(call.Args[1]).String(), c.pos(in), good, ifelse(good, "a piece cut by the splitter, or a part of a segment's own text", "a segment is built from "+c.O.Of(call.Args[1]).String()+", text that is neither a piece the splitter cut out of a pattern nor a part of one segment's text: literal text that ends up in front of a parameter is never compared with the request (the parameter's matcher starts at the `{`), so the node matches paths whose head differs"))
+		})
+	}
+	_ = n
+}
+
+// ruleResponseHeadersAreNotWiped — C12.R13 / C11.R13: what the CORS procedure wrote stays on the response. The grant
+// is written into the response header map before the handler runs; library code that empties that map afterwards
+// (a recovery path that "starts from a clean writer") sends an allowed request's answer — the 500 of a panicking
+// handler — without Access-Control-Allow-Origin and without Vary. No library function removes entries of an
+// http.Header wholesale: no `clear(h)`, no `delete(h, k)` / `h.Del(k)` whose key is not a constant.
+func ruleResponseHeadersAreNotWiped(c *Ctx, rule string) {
+	c.R.Rule(c.R.Property+"."+rule, 0, "no library code empties a response header map")
+	isHeader := func(t types.Type) bool {
+		n, ok := types.Unalias(t).(*types.Named)
+		return ok && n.Obj().Pkg() != nil && n.Obj().Pkg().Path() == "net/http" && n.Obj().Name() == "Header"
+	}
+	for _, f := range c.libFuncs() {
+		an.AllInstrs(f, func(in ssa.Instruction) {
+			call := an.CallOf(in)
+			if call == nil {
+				return
+			}
+			what := ""
+			if b, isB := call.Value.(*ssa.Builtin); isB && len(call.Args) >= 1 {
+				arg := call.Args[0]
+				if ct, isCT := arg.(*ssa.ChangeType); isCT {
+					arg = ct.X
+				}
+				switch {
+				case b.Name() == "clear" && (isHeader(arg.Type()) || isHeader(call.Args[0].Type())):
+					what = "clear(header map)"
+				case b.Name() == "delete" && len(call.Args) == 2 && (isHeader(arg.Type()) || isHeader(call.Args[0].Type())):
+					if _, isK := call.Args[1].(*ssa.Const); !isK {
+						what = "delete(header map, " + c.O.Of(call.Args[1]).String() + ")"
+					}
+				}
+			}
+			if an.CalleeName(call) == "net/http.Header.Del" && len(call.Args) == 2 {
+				if _, isK := call.Args[1].(*ssa.Const); !isK {
+					what = "Header.Del(" + c.O.Of(call.Args[1]).String() + ")"
+				}
+			}
+			if what == "" {
+				return
+			}
+			c.R.Add(rule, c.fk(f), "wipes:"+what, c.pos(in), false, "library code removes response headers by a key it does not name ("+what+"): the CORS grant written before the handler ran (Access-Control-Allow-Origin, -Credentials, Expose-Headers, Vary) is removed with them — the answer of an allowed request leaves without it")
+		})
 	}
 }
